@@ -159,7 +159,7 @@ _add(
         "evaluate_ahb_expression_tree with harness evaluators and through is_valid_expression with the ContentEvaluationResult based evaluators "
         "and a ContextVar setter. Oracle: the structural predicate of the property statement. distinct non-trivial = distinct expression strings"
     ),
-    deciding={"any": {"invalid_expressions": 200, "valid_expressions": 200, "invalid:hint-with-fc": 20, "invalid:neutral-with-rc": 100, "ahb_invalid": 15, "ahb_valid": 15, "is_valid_expression_calls": 30, "neutral_only_expressions": 100, "failed_evaluations_in_between": 50, "is_valid_expression_calls_with_tree": 10, "small_scope_expressions": 2900}},
+    deciding={"any": {"invalid_expressions": 200, "valid_expressions": 200, "invalid:hint-with-fc": 20, "invalid:neutral-with-rc": 100, "ahb_invalid": 15, "ahb_valid": 15, "is_valid_expression_calls": 30, "neutral_only_expressions": 100, "failed_evaluations_in_between": 50, "is_valid_expression_calls_with_tree": 10, "small_scope_expressions": 2900, "is_valid_expression_calls_with_time_conditions": 20, "is_valid_expression_calls_with_unresolved_ahb_tree": 10}},
     headline=["valid_expressions", "invalid_expressions", "ahb_valid", "ahb_invalid", "is_valid_expression_calls"],
 )
 
@@ -225,7 +225,7 @@ _add(
         "kept) of the resolved expression == tree of the textually substituted expression; flags separately; unknown package => "
         "NotImplementedError. distinct non-trivial = distinct (expression, table) with >= 2 package occurrences or package + time condition"
     ),
-    deciding={"any": {"cases": 200, "package_occurrences": 300, "time_condition_occurrences": 100, "unknown_package_runs": 20, "exactly_equal": 500, "distinct_release_orders": 100, "resolutions_with_shipped_resolvers": 100, "resolutions_without_package_table": 50, "resolutions_for_a_format_without_package_table": 50}},
+    deciding={"any": {"cases": 200, "package_occurrences": 300, "time_condition_occurrences": 100, "unknown_package_runs": 20, "exactly_equal": 500, "distinct_release_orders": 100, "resolutions_with_shipped_resolvers": 100, "resolutions_without_package_table": 50, "resolutions_for_a_format_without_package_table": 50, "shipped_resolver_mode:json-file-list": 30, "shipped_resolver_mode:cer-resolver-without-format": 30}},
     headline=["cases", "package_occurrences", "time_condition_occurrences", "unknown_package_runs", "distinct_release_orders", "association_only_difference"],
 )
 
@@ -377,10 +377,10 @@ RULE_ADDITIONS = {
     "C02": "every 7th string is parsed twice (same verdict); sequences 'well-formed string whose package is malformed -> repaired table / no package resolution'. runs of 90-100 operands handed to the two cached parsers from 650-700 frames deep in the caller (thorough: also 260 operands from the top level): a tree, no RecursionError; repeated calls pass the string by keyword half of the time.",
     "C04": "small scope, complete: EVERY structurally valid expression with up to 3 (thorough: 4) leaves over {[1], [2], [501], [901], [902]} under all 3^k assignments; half of the async evaluations run under a random completion order; every fourth expression also through the library's own evaluators (dictionary based, ContentEvaluationResult based with fresh and with ONE long-lived in-place refreshed EvaluatableData, user evaluator classes with instance state and new instances per message), assignments consecutively per mode; re-evaluation with the same tree and input node objects. the harness requirement evaluator routes two redefined keys through an overridden get_evaluation_method while the class still carries the superseded evaluate_<key> methods (which answer differently). and-only expressions under assignments over all FOUR states (NEUTRAL answered by the user evaluator); a third of the async evaluations with an EvaluatableDataProvider that is a context manager (data released when the injected call returns); ContentEvaluationResult bodies spell the states in upper / lower / title case.",
     "C05": "fresh keys include the ends of the hint / format-constraint ranges; up to six variants per expression also through the async API, mostly under a random completion order. a third of the async pairs with hint texts that are empty, blank, 0 or None (as strings). a third of the async pairs written with packages (resolved by the library first).",
-    "C06": "small scope, complete: EVERY expression of the domain (valid and invalid) with up to 3 (thorough: 4) leaves over {[1], [2], [501], [901], [902]} under all assignments; is_valid_expression also on the already resolved tree; a class of expressions built from hints and format constraints alone (the 'directly combines a single hint with a single format constraint' boundary); failing out-of-domain evaluations interleaved with the judged ones.",
+    "C06": "small scope, complete: EVERY expression of the domain (valid and invalid) with up to 3 (thorough: 4) leaves over {[1], [2], [501], [901], [902]} under all assignments; is_valid_expression also on the already resolved tree; a class of expressions built from hints and format constraints alone (the 'directly combines a single hint with a single format constraint' boundary); failing out-of-domain evaluations interleaved with the judged ones. a fifth of the validity calls hand in the (unresolved) tree of the AHB parser; 11 fixed expressions with time conditions (valid and invalid), each as string and as unresolved tree.",
     "C08": "small scope, complete: EVERY U/O/X expression with up to 3 (thorough: 4) leaves over three keys (minimal brackets / flat runs, all spellings) under all truth assignments; message-less constraints through the tree evaluator (Boolean clause only); async evaluations mostly under a random completion order; the library's dictionary / ContentEvaluationResult based evaluators with and without messages; 2-5 concurrent evaluations of one expression with different texts (no foreign text in a message). every truth assignment also with fulfilled single constraints that carry a text of their own (odd keys): the message clause must hold for them as well.",
     "C09": "every fifth case an AHB expression whose parts are written with packages (several per part, different nesting depths) evaluated after resolution against the parts' own written-out condition expressions; the first assignment of every expression also through the library's own dictionary / ContentEvaluationResult based evaluators (same result as with equivalent user evaluators).",
-    "C10": "a third of the cases with packages also against a message of a format / version for which no package table is registered (NotImplementedError demanded); shipped resolvers incl. a user-written provider that serves one DictBasedPackageResolver created without format; half of the cases also through the library's own package resolvers (dictionary based; ContentEvaluationResult based with the same resolver instances and changing data). a content evaluation result without package table (packages = None) through the cer / hardcoded resolvers; repeatabilities whose bounds have different numbers of digits (2..10, 9..10, 5..100).",
+    "C10": "a third of the cases with packages also against a message of a format / version for which no package table is registered (NotImplementedError demanded); shipped resolvers incl. a user-written provider that serves one DictBasedPackageResolver created without format; half of the cases also through the library's own package resolvers (dictionary based; ContentEvaluationResult based with the same resolver instances and changing data). a content evaluation result without package table (packages = None) through the cer / hardcoded resolvers; repeatabilities whose bounds have different numbers of digits (2..10, 9..10, 5..100). further shipped-resolver modes: the ContentEvaluationResult based resolver created without format behind a user provider; JsonFilePackageResolver on a mapping-LIST file that also holds entries of another EDIFACT format.",
     "C11": "the combined resolver (time conditions kept, so that it hands out what it got from the condition parser) is part of the histories: its trees are edited too and the condition parts of the AHB expressions are pool strings of their own; flood strings must parse; every pool string also goes to the OTHER parser before, during and after the history (must stay a SyntaxError); 11 strings with packages and all three time conditions go through the resolver with everything switched on, the trees it returns are edited and every such string is resolved again (first result == every later result). a fifth of the parse calls pass the string by keyword; the edit operations include writing .value / .type of a Token of a returned tree.",
     "C12": "a third of the expressions use one package at several places (every occurrence a look-up of its own); the abbreviated expression must evaluate like the expression with every package written out; the three gather sites called directly (evaluate_conditions also with per-key evaluation contexts, a key asked for twice) under all / sampled orders; the harness evaluator narrows and re-reads its evaluation context around the yield; 2-4 concurrent evaluations whose requirement evaluators await look-ups SHARED between all of them while one evaluation fails (an invalid modal-mark part beside a valid one): every other evaluation must end as it does alone (FIFO, LIFO, 3 random orders). 150 isolation cases through the shipped ContentEvaluationResult based evaluators (one set of instances, per-task results in context-local data); a package resolver that answers every look-up with a numbered expression of its own (each answer must be in the resolved tree exactly once, all orders); is_valid_expression must hand a different element of the product to every evaluation it starts.",
     "C13": "complete parent x child table: every (indicator, outcome) of a parent x every (indicator, outcome) of its child x both flag values for group > segment and segment > free text (thorough: three levels); validate_segment(_group) with an explicit parent status (all three); batches of 2-4 validations awaited from one coroutine; a quarter of the runs through the library's own evaluators; 40 % of the trees with maus line indexes in flat-AHB order; a third of the trees partly written with packages.",
